@@ -332,8 +332,8 @@ def build_classmap(classes, nlinear, version):
             data += b''.join(be('H', g) for g in cl)
         else:
             pairs = sorted((g, idx) for idx, g in enumerate(cl)); n = len(pairs)
-            sr = 1; es = 0
-            while sr * 2 <= n: sr *= 2; es += 1
+            sr = 1 if n else 0; es = 0
+            while sr and sr * 2 <= n: sr *= 2; es += 1
             data += be('HHHH', n, sr, es, n - sr) + b''.join(be('HH', g, idx) for g, idx in pairs)
     offs.append(off + len(data))
     return be('HH', ncl, nlinear) + b''.join(be('I' if wide else 'H', o) for o in offs) + data
